@@ -363,3 +363,10 @@ func (d *Driver) GrantIfPaused() {
 	d.W.Mu.Unlock()
 	d.W.cond.Broadcast()
 }
+
+// ReadCount returns the number of ReadSlices returns so far.
+func (d *Driver) ReadCount() int {
+	d.mu.Lock()
+	defer d.mu.Unlock()
+	return len(d.Reads)
+}
